@@ -45,6 +45,12 @@ CHECKS = {
         note="std Read/io::copy and the basic decoders are assumed to consume what they document; parsed text content is abstracted; the "
              "token loops of the data set readers that consume sanitize_length's result are not covered.",
     ),
+    "C34": dict(
+        technique="Kani/CBMC harnesses with a writer failing at a symbolic offset under the real leaf encoders; Verus ghost failure counters on the Write/Read shims of the extracted printer, decoder and P-DATA writer",
+        text="Proof that the leaf encoders, every method of the stateful encoder/decoder and the P-DATA writer return an error whenever the underlying "
+             "writer or reader reported a failure during the call. Whole-object writers/readers and associations are not covered.",
+        note="Failure = writer accepting zero bytes / reader or writer returning Err in the shims. File-level and network-level operations uncovered.",
+    ),
     "C08": dict(
         technique="Kani/CBMC contract harnesses inside the real module, loop-free over all 12-byte inputs and all dictionary answers",
         text="Complete proof that the adaptive decoder's first header equals the explicit (resp. implicit) decoder's result under "
